@@ -153,7 +153,8 @@ Definition vals (s : state) : list fv := match ds s with Some d => d_vals d | No
 
 Lemma step_inv s o : Inv s -> Inv (step s o).
 Proof.
-  unfold Inv. intros HI. destruct o as [m|data| |mn mx me]; cbn [step].
+  unfold Inv. intros HI. destruct o as [m|data| |mn mx me|raw]; cbn [step];
+    [| | | |cbn [ds cnt]; unfold Good; cbn [a_min a_max a_mean]; repeat split; discriminate].
   - cbn [ds cnt]. destruct (m =? 2); [exact I|].
     destruct (ds s) as [d|]; [|exact I].
     destruct HI as (A & B & C & _). repeat split; auto. discriminate.
@@ -186,11 +187,13 @@ Lemma step_vals s o :
   = match o with
     | OOpen m => if m =? 2 then [] else vals s
     | OWrite data => if mode s =? 1 then data else vals s ++ data
+    | ORaw data => data
     | _ => vals s
     end
   /\ mode (step s o) = match o with OOpen m => m | _ => mode s end.
 Proof.
-  intros HI. unfold vals. destruct o as [m|data| |mn mx me]; cbn [step].
+  intros HI. unfold vals. destruct o as [m|data| |mn mx me|raw]; cbn [step];
+    [| | | |cbn [ds mode d_vals]; split; reflexivity].
   - cbn [ds mode]. split; [|reflexivity]. now destruct (m =? 2).
   - destruct data as [|x data].
     + cbn [ds mode]. split; [|reflexivity].
